@@ -23,4 +23,11 @@ def run(run_, tier):
             run_.function(f"mici.systems.{c}.{m}")
     run_.replay_for("", lambda w: {"script": "c05_derivatives.py", "args": [json.dumps(w or {})], "timeout": 900})
     n = symla_systems.run_cases(run_, "c05_cases")
+    # SoftAbsRiemannianMetricSystem = generic RiemannianMetricSystem methods (proved above for scalar / diagonal / Cholesky / dense metrics) applied to the
+    # SoftAbs metric class: its gradient contracts (symbolic softabs_coeff, distinct and repeated eigenvalues) are C11's obligations, imported here
+    from . import c09, c11
+    from .trans_model import FilterRun
+    c11.run_obligations(run_, keep=lambda oid: "SoftAbs" in oid)
+    # a memoised value or derivative method must declare every state variable it reads (else the value is stale after a position-only update)
+    c09.static_layers(FilterRun(run_, lambda oid: "reads-within-declared-dependencies" in oid), "C09")  # "C09" selects the read-set layer
     run_.notes.append(f"{n} system configurations")
